@@ -193,6 +193,7 @@ pub fn run_session(s: &Session, fault: Fault, schedule: Vec<u8>, lazy: bool) -> 
     let mut expected_items: Vec<Item> = vec![];
     sched.idle_grace = if lazy_cap.is_some() { 400 } else { 2 };
     let mut turns_after_fed = 0usize;
+    let mut spinning = false;
     let oc = sched.run(&mut || sch.next(), 400_000, &mut |x| {
         if fed {
             turns_after_fed += 1;
@@ -251,8 +252,16 @@ pub fn run_session(s: &Session, fault: Fault, schedule: Vec<u8>, lazy: bool) -> 
                 }
             }
         }
+        // a reader that keeps asking after it was told the stream has ended will never stop
+        if peer.sh.lock().unwrap().eof_reads > 64 {
+            spinning = true;
+            return true;
+        }
         call_actors.iter().all(|a| x.done(*a)) && stream_actors.iter().all(|a| x.done(*a))
     });
+    if spinning {
+        return Err(Failure::new(format!("the connection keeps reading after the transport reported the end of the stream (more than 64 reads returning end-of-file): pending calls and streams can never complete; session {s:?}, fault {fault:?}")));
+    }
     let got = results.lock().unwrap().clone();
     let slog: Vec<StreamLog> = logs.iter().map(|l| l.lock().unwrap().clone()).collect();
     let steps = sched.steps;
